@@ -324,9 +324,14 @@ def runCall (sch : SchemaEval) (t0 : Txn) (nu : Nu) (c : Call) : Res (Txn × Nu 
     | .error e => .error e
     | .ok t => .ok (t, nu, .unit)
   | .dropCollection h =>
-    match t0.drop h nu with
+    -- Collection.Drop validates its handle (a collection is needed) before beginning the
+    -- transaction: a handle without a collection would be the request to drop the database
+    match h.validate true with
     | .error e => .error e
-    | .ok (t, nu) => .ok (t, nu, .unit)
+    | .ok _ =>
+      match t0.drop h nu with
+      | .error e => .error e
+      | .ok (t, nu) => .ok (t, nu, .unit)
   | .dropDatabase db =>
     match t0.drop ⟨db, ""⟩ nu with
     | .error e => .error e
